@@ -428,17 +428,38 @@ var Wait = 2 * time.Second
 // is drained), and reports what was seen. maxItems > 0 bounds what is collected from a provider
 // that never stops (reported as blocked: no end of ammo was observed).
 func Observe(b *Built, consumers int, cancelAfter int, maxItems int) Obs {
+	return ObserveMode(b, consumers, cancelAfter, maxItems, false)
+}
+
+// ObservePre: the run context is ALREADY cancelled when Run is called, and the consumers are already
+// waiting in Acquire (what happens when a pool is cancelled between the start of its instances and
+// the first statements of its provider goroutine: engine.instancePool.runAsync starts them in
+// separate goroutines). The consumers Acquire until end of ammo; whatever the provider still hands
+// out (a select between a send and ctx.Done() may pick the send) is collected.
+func ObservePre(b *Built, consumers int, maxItems int) Obs {
+	return ObserveMode(b, consumers, -1, maxItems, true)
+}
+
+// ObserveMode is Observe (pre = false) / ObservePre (pre = true, cancelAfter ignored).
+func ObserveMode(b *Built, consumers int, cancelAfter int, maxItems int, pre bool) Obs {
 	ctx, cancel := context.WithCancel(context.Background())
 	defer cancel()
 	runDone := make(chan string, 1)
-	go func() {
-		defer func() {
-			if r := recover(); r != nil {
-				runDone <- "panic"
-			}
+	startRun := func() {
+		go func() {
+			defer func() {
+				if r := recover(); r != nil {
+					runDone <- "panic"
+				}
+			}()
+			runDone <- ErrClass(b.P.Run(ctx, core.ProviderDeps{Log: zap.NewNop(), PoolID: "verif"}))
 		}()
-		runDone <- ErrClass(b.P.Run(ctx, core.ProviderDeps{Log: zap.NewNop(), PoolID: "verif"}))
-	}()
+	}
+	if pre {
+		cancelAfter = -1
+	} else {
+		startRun()
+	}
 
 	type ev struct {
 		idx  int
@@ -511,6 +532,11 @@ func Observe(b *Built, consumers int, cancelAfter int, maxItems int) Obs {
 
 	for i := 0; i < consumers; i++ {
 		go consume(cancelAfter >= 0)
+	}
+	if pre {
+		time.Sleep(10 * time.Millisecond) // the consumers are parked in Acquire (nothing can have been sent)
+		cancel()
+		startRun()
 	}
 	sawEOF, blocked := collect(consumers, maxItems)
 	o := Obs{}
